@@ -399,7 +399,7 @@ pub fn run_c03(ctx: &Ctx) -> ! {
         rep.finish();
     }
     run_space(ctx, &mut rep, |c, st| {
-        if c.payload_kind == 0 || c.kind != "skel-hdr-payload" {
+        if (c.payload_kind == 0 || c.kind != "skel-hdr-payload") && c.kind != "charset-variants" {
             c03_case(c, st)
         }
     });
